@@ -4,6 +4,7 @@ package c05
 
 import (
 	"bytes"
+	"crypto/cipher"
 	"crypto/rsa"
 	"crypto/sha256"
 	"crypto/x509"
@@ -16,6 +17,7 @@ import (
 	"io"
 	"math/rand"
 	"os"
+	"os/exec"
 	"path/filepath"
 	"strconv"
 	"strings"
@@ -23,11 +25,14 @@ import (
 	"filippo.io/age"
 	"filippo.io/age/armor"
 	"filippo.io/age/internal/format"
+	"filippo.io/age/internal/stream"
 	"filippo.io/age/xverif/internal/eval"
+	"filippo.io/age/xverif/internal/strm"
 	"filippo.io/age/xverif/internal/tape"
 	"filippo.io/age/xverif/internal/vectors"
 	"filippo.io/age/xverif/internal/vk"
 	"filippo.io/age/xverif/internal/world"
+	"golang.org/x/crypto/chacha20poly1305"
 )
 
 type rcp struct {
@@ -623,6 +628,13 @@ func RunC05(tier string) {
 	rand.New(rand.NewSource(run.Seed + 1)).Read(big)
 	checkEncrypt(run, t, w, findCase(t, []rcp{{K: "X", ID: "x1"}}), len(big), false, big, "C05", nil)
 	run.Distinct("enc:x1:257chunks")
+	// through the armor the binary length takes every residue mod 48 (the footer rule differs at 0, 46, 47)
+	if xc := findCase(t, []rcp{{K: "X", ID: "x1"}}); xc != nil {
+		for n := 0; n < 50; n++ {
+			checkEncrypt(run, t, w, xc, n, true, pt, "C05", nil)
+			run.Distinct(fmt.Sprintf("enc-armor-align:%d", n))
+		}
+	}
 	run.Add("recipient_lists", len(t.Cases))
 	run.Sample(map[string]interface{}{"recipients": rsSig(t.Cases[len(t.Cases)/2].Rs), "plan": t.Cases[len(t.Cases)/2].Plan})
 	corpus(run, t)
@@ -736,8 +748,110 @@ func RunC06(tier string) {
 	run.Distinct("carry:258chunks")
 	run.Add("histories", nh)
 	run.Sample(map[string]interface{}{"recipients": rsSig(t.Cases[len(t.Cases)/3].Rs), "plan": t.Cases[len(t.Cases)/3].Plan})
+	nonceReuseAfterWriteError(run, rng)
+	repoSuiteTrace(run)
+	if run.Thorough() {
+		secondCarry(run, rng)
+	}
 	mathRandGuard(run)
 	run.Finish()
+}
+
+// attemptDst records every frame handed to it, also the ones it refuses.
+type attemptDst struct {
+	attempts [][]byte
+	failAt   int
+}
+
+func (d *attemptDst) Write(p []byte) (int, error) {
+	d.attempts = append(d.attempts, append([]byte{}, p...))
+	if len(d.attempts) == d.failAt {
+		return 0, errors.New("injected write failure")
+	}
+	return len(p), nil
+}
+
+// nonceReuseAfterWriteError: a caller that keeps writing after the destination failed once must not make the writer seal
+// two different chunks under the same key and nonce (what reached the wire of the failed write may have been observed).
+func nonceReuseAfterWriteError(run *vk.Run, rng *rand.Rand) {
+	key := make([]byte, 32)
+	rng.Read(key)
+	aead, _ := chacha20poly1305.New(key)
+	data := make([]byte, 70000)
+	for failAt := 1; failAt <= 3; failAt++ {
+		d := &attemptDst{failAt: failAt}
+		w, err := stream.NewWriter(key, d)
+		if err != nil {
+			vk.Infra("%v", err)
+		}
+		for i := 0; i < 5; i++ {
+			rng.Read(data)
+			w.Write(data) // errors deliberately ignored: the caller carries on
+		}
+		w.Close()
+		run.Eval(1)
+		seen := map[string][]byte{}
+		for _, a := range d.attempts {
+			for ctr := 0; ctr < 12; ctr++ {
+				for _, fin := range []bool{false, true} {
+					if _, err := aead.Open(nil, strm.Nonce(ctr, fin), a, nil); err == nil {
+						k := fmt.Sprintf("%d/%v", ctr, fin)
+						if prev, ok := seen[k]; ok && !bytes.Equal(prev, a) {
+							run.Violation("C06:nonce-reused-after-write-error", fmt.Sprintf("after the destination failed at write %d and the caller kept writing, two different chunks were sealed under counter %d (final=%v) of the same key", failAt, ctr, fin), map[string]interface{}{"check": "C06.failedflush", "failAt": failAt})
+						}
+						seen[k] = a
+					}
+				}
+			}
+		}
+		run.Distinct(fmt.Sprintf("failed-flush:%d", failAt))
+	}
+}
+
+// frameTap looks at frames as they stream by (no buffering of the 4 GiB payload).
+type frameTap struct {
+	aead    cipher.AEAD
+	idx     int
+	want    map[int]bool
+	opened  map[int]bool
+	buf     []byte
+	skipped int64
+}
+
+func (t *frameTap) Write(p []byte) (int, error) {
+	// stream.Writer hands over exactly one frame per Write
+	if t.want[t.idx] {
+		if _, err := t.aead.Open(nil, strm.Nonce(t.idx, false), p, nil); err == nil {
+			t.opened[t.idx] = true
+		}
+	}
+	t.idx++
+	return len(p), nil
+}
+
+// secondCarry: 65 538 chunks (4 GiB) streamed through the writer; the frames around the counter's second byte carry must be
+// sealed under the specified nonces (counter 65535, 65536, 65537 big-endian in 11 bytes).
+func secondCarry(run *vk.Run, rng *rand.Rand) {
+	key := make([]byte, 32)
+	rng.Read(key)
+	aead, _ := chacha20poly1305.New(key)
+	tap := &frameTap{aead: aead, want: map[int]bool{255: true, 256: true, 65535: true, 65536: true, 65537: true}, opened: map[int]bool{}}
+	w, _ := stream.NewWriter(key, tap)
+	chunk := make([]byte, 65536)
+	for i := 0; i < 65539; i++ {
+		chunk[0] = byte(i)
+		if _, err := w.Write(chunk); err != nil {
+			vk.Infra("%v", err)
+		}
+	}
+	w.Close()
+	run.Eval(1)
+	for i := range tap.want {
+		if !tap.opened[i] {
+			run.Violation("C06:chunk-nonce-after-carry", fmt.Sprintf("chunk %d of a 4 GiB payload is not sealed under counter %d of the age v1 nonce layout", i, i), map[string]interface{}{"check": "C06.carry2", "chunk": i})
+		}
+	}
+	run.Distinct("second-carry")
 }
 
 // mathRandGuard: the only non-test file allowed to import math/rand is plugin/client.go (grease, not key material).
@@ -767,4 +881,48 @@ func mathRandGuard(run *vk.Run) {
 	for _, o := range offenders {
 		run.Violation("C06:math-rand-imported:"+o, o+" imports math/rand: a non-cryptographic generator in a non-test source file other than plugin/client.go", nil)
 	}
+}
+
+// repoSuiteTrace runs the repository's own test suite built with the verif tag and VERIF_TRACE set, so that every STREAM
+// chunk sealed or opened and every scrypt derivation anywhere in `go test ./...` is logged, and validates the log against
+// spec/HookTrace.tla: the tests already reach these paths, the specification adds the per-step assertions.
+func repoSuiteTrace(run *vk.Run) {
+	dir, err := os.MkdirTemp("", "c06trace-")
+	if err != nil {
+		vk.Infra("%v", err)
+	}
+	defer os.RemoveAll(dir)
+	trace := filepath.Join(dir, "hooks.ndjson")
+	cmd := exec.Command("go", "test", "-tags", "verif", "-vet=off", "-count=1", ".", "./internal/stream", "./agessh", "./armor", "./cmd/age")
+	cmd.Dir = vk.RepoRoot()
+	cmd.Env = append(os.Environ(), "GOFLAGS=-mod=mod", "GOPROXY=off", "GOSUMDB=off", "VERIF_TRACE="+trace)
+	out, _ := cmd.CombinedOutput() // test failures are the suite's business; only the trace matters here
+	b, err := os.ReadFile(trace)
+	if err != nil || len(b) == 0 {
+		if strings.Contains(string(out), "build failed") || strings.Contains(string(out), "cannot find") {
+			vk.Infra("the repository's tests did not build with -tags verif:\n%s", string(out))
+		}
+		run.Drift("the repository's suite produced no hook trace (hooks without VERIF_TRACE support?)")
+		return
+	}
+	nlines := bytes.Count(b, []byte("\n"))
+	cfg := "SPECIFICATION Spec\nCONSTANTS\n C = 65536\n MaxLogN = 22\nCONSTRAINT HighWater\nPOSTCONDITION Accepted\nCHECK_DEADLOCK FALSE\n"
+	res := run.TLC("repo-suite-hook-trace", vk.TLCOpts{Module: "HookTrace", Config: cfg, Workers: 1, Env: map[string]string{"TRACE": trace}})
+	run.Traces(1)
+	run.Add("repo_suite_hook_events", nlines)
+	if acc := res.PrintsWithPrefix("ACCEPTED "); len(acc) == 1 {
+		return
+	}
+	if rej := res.PrintsWithPrefix("REJECTED "); len(rej) == 1 {
+		var at int
+		fmt.Sscan(rej[0], &at)
+		lines := bytes.Split(b, []byte("\n"))
+		ev := ""
+		if at >= 1 && at <= len(lines) {
+			ev = string(lines[at-1])
+		}
+		run.Violation("C06:repo-suite-trace-rejected", fmt.Sprintf("while the repository's own tests ran, the library took a step HookTrace.tla does not allow at event %d: %s", at, ev), map[string]interface{}{"check": "C06.hooktrace", "event": ev})
+		return
+	}
+	vk.Infra("HookTrace gave no verdict:\n%s", res.Output)
 }
